@@ -141,6 +141,7 @@ def run_check(pid, tier, seed, args):
             "hashseed": os.environ.get("PYTHONHASHSEED"),
             "order_hook": dict(loader.STATS), "repo": loader.REPO,
             "bounds": getattr(prop, "BOUNDS", ""),
+            "notes": res.get("notes", {}),
         },
         "assumptions": getattr(prop, "ASSUMPTIONS", []),
         "wall_s": round(time.time() - t0, 2),
@@ -153,6 +154,8 @@ def run_check(pid, tier, seed, args):
     print("%s tier=%s seed=%d states=%d executions=%d transitions=%d outcomes=%d violations=%d known=%d wall=%.1fs%s" % (
         prop.ID, tier, seed, states, execs, ops, res["outcomes"], len(unlisted),
         sum(len(v) for v in attributed.values()), time.time() - t0, " CAPPED" if res["capped"] else ""))
+    if res.get("notes"):
+        print("  notes: %s" % json.dumps(res["notes"]))
     for a in res["layers"]:
         print("  layer %-34s generated=%-8d states=%-8d dups=%-8d skipped=%-7d execs=%-8d %s" % (
             a["name"], a["generated"], a["states"], a["dups"], a["skipped"], a["execs"],
